@@ -321,7 +321,10 @@ def replay_concrete(task, atoms: Dict[str, bool], fl_float: Dict[str, float]):
         try:
             if task.get("after_other_state"):
                 of = task.get("other_fluents") or {f: v + 3.5 for f, v in fl_float.items()}
-                other, _ = concrete_state(world, prep, atoms, {f: of.get(f, 0.0) for f in prep.all_fluents})
+                # the other state defines every fluent (also those the queried state leaves undefined), as in the symbolic run
+                other, _ = world.make_state({x: bool(atoms.get(x, False)) for x in prep.sym_atoms},
+                                            {f: of.get(f, 0.0) for f in prep.all_fluents})
+                _route(world, prep.task, other)
                 op.is_applicable(other)
             got = bool(op.is_applicable(state))
             out["observed"] = {"applicable": got}
@@ -334,6 +337,13 @@ def replay_concrete(task, atoms: Dict[str, bool], fl_float: Dict[str, float]):
         return out
     # apply
     impose_order_grounded(op, task.get("order"))
+    if task.get("after_other_state"):
+        of = task.get("other_fluents") or {f: v + 3.5 for f, v in fl_float.items()}
+        other, _ = world.make_state({x: bool(atoms.get(x, False)) for x in prep.sym_atoms}, {f: of.get(f, 3.5) for f in prep.all_fluents})
+        try:
+            op.apply(other, allow_inapplicable_actions=True)
+        except Exception:  # noqa
+            pass
     before = lib.state_digest(state)
     try:
         nxt = op.apply(state, **task.get("apply_kwargs", {}))
@@ -416,6 +426,9 @@ def run_task(task) -> dict:
                     ok = ctx.assume(z3.substitute(cs.defined, *[(prep.vars.fluent(f), z3.Real("w2" + f)) for f in prep.all_fluents]))
             else:
                 ok = ctx.assume(z3.And(cs.defined, cs.pre, cs.consistent))
+                if ok and task.get("after_other_state"):
+                    w2 = [(prep.vars.fluent(f), z3.Real("w2" + f)) for f in prep.all_fluents]
+                    ok = ctx.assume(z3.And(z3.substitute(cs.defined, *w2), z3.substitute(cs.consistent, *w2)))
             for f in _undefined(prep):
                 ok = ok and ctx.assume(prep.vars.fluent(f) == 0)
             if not ok:
@@ -435,6 +448,11 @@ def run_task(task) -> dict:
                 r = op.is_applicable(state)
                 return ("applicable", bool(r), None, None)
             impose_order_grounded(op, task.get("order"))
+            if task.get("after_other_state"):
+                # the same operator object was applied before, to a state with the same facts that defines EVERY fluent
+                other, _ = world.make_state({a_: SymBool(prep.vars.atom(a_)) for a_ in prep.sym_atoms},
+                                            {f: SymReal(z3.Real("w2" + f)) for f in prep.all_fluents})
+                op.apply(other, allow_inapplicable_actions=True)
             before = lib.state_digest(state)
             nxt = op.apply(state, **task.get("apply_kwargs", {}))
             if mode == "reapply":
